@@ -303,6 +303,33 @@ func (e *Exec) builtin(st *State, f *Frame, b *ssa.Builtin, args []Value, cc *ss
 		}
 		e.writableObject(st, ch.Obj).V = &ChanData{Closed: e.ts.True}
 		return &TupleV{}
+	case "SliceData":
+		sv := args[0].(*SliceV)
+		if sv.Obj == 0 {
+			return nilPtr
+		}
+		return &PtrV{Obj: sv.Obj, Path: extendPath(sv.Path, PathElem{I: sv.Off})}
+	case "String":
+		// unsafe.String(ptr, len): snapshot of len bytes starting at ptr (which came from SliceData)
+		n := e.concreteInt(st, args[1])
+		p := args[0].(*PtrV)
+		if n == 0 {
+			return &StringV{S: ""}
+		}
+		if p.Obj == 0 || len(p.Path) == 0 || p.Path[len(p.Path)-1].Sym != nil {
+			unsupported("unsafe.String on unsupported pointer")
+		}
+		basePath := p.Path[:len(p.Path)-1]
+		off := p.Path[len(p.Path)-1].I
+		arr, ok := e.loadPath(st, e.getObject(st, p.Obj).V, basePath).(*ArrayV)
+		if !ok || off+n > len(arr.E) {
+			unsupported("unsafe.String out of backing array")
+		}
+		bs := make([]*term.Term, n)
+		for i := 0; i < n; i++ {
+			bs[i] = arr.E[off+i].(*term.Term)
+		}
+		return e.mkString(bs)
 	case "ssa:wrapnilchk":
 		if p, ok := args[0].(*PtrV); ok && p.Obj == 0 {
 			e.goPanic(st, "value method called using nil pointer")
